@@ -28,7 +28,7 @@ ASSUMPTIONS = ['both sides are the real offline monitor', 'horizon from RefHoriz
                'operator is present (envelope of F14a)', 'NaN values are compared as equal to NaN']
 REAL = common.REAL_ALL
 STUBS = common.STUBS_ALL
-PROBES = ['horizon_gt_0', 'pure_past', 'dense_time', 'padding_visible_outside_settled_region', 'truncated_to_one_sample', 'bounds_with_explicit_units', 'pastified_after_an_offline_evaluation', 'logs_longer_than_1000_samples']
+PROBES = ['log_grown_in_place', 'horizon_gt_0', 'pure_past', 'dense_time', 'padding_visible_outside_settled_region', 'truncated_to_one_sample', 'bounds_with_explicit_units', 'pastified_after_an_offline_evaluation', 'logs_longer_than_1000_samples']
 INTERLEAVING_MEASURE = 'distinct (time domain, log length, truncation point) tuples'
 ENVELOPE_RULES = ['bounded-op-nonzero-start (F14a) for dense time']
 
@@ -123,7 +123,9 @@ def _gen(rng, tier):
     # the object that evaluates the long log has a history: it was used before under a sampling period k times as long
     prior_factor = rng.choice([2, 3, 10]) if rng.random() < 0.15 else None
     return {'subspecs': subspecs, 'past_off': rng.random() < 0.08, 'dense': False, 'vars': vars_, 'ast': ast, 'n': n, 'data': data, 'notation': notation, 'prior_factor': prior_factor,
-            'text': text, 'cls': rng.choice(['dt_off', 'dt_off', 'dt'])}
+            'text': text, 'cls': rng.choice(['dt_off', 'dt_off', 'dt']),
+            # a log that GROWS: one long-lived object evaluates the caller's one data set, whose columns are extended in place
+            'grow': rng.random() < 0.25}
 
 
 def eqn(a, b):
@@ -195,6 +197,35 @@ def run(sc):
                     r.probes['padding_visible_outside_settled_region'] += 1
                 if m == 1:
                     r.probes['truncated_to_one_sample'] += 1
+            if sc.get('grow') and n >= 2 and not past_off:
+                # the log grows while it is monitored: ONE object, ONE data set (the same dict and the same list objects, extended
+                # in place between the calls); every evaluation must agree with the final one on its settled region
+                r.faults['log_grown_in_place'] += 1
+                r.probes['log_grown_in_place'] += 1
+                gspec = M.build(desc)
+                ds = {'time': []}
+                for v in sorted(data):
+                    ds[v] = []
+                pts = sorted(set([max(1, n // 3), max(1, (2 * n) // 3), n]))
+                have = 0
+                for m in pts:
+                    ds['time'].extend(stamps[have:m])
+                    for v in data:
+                        ds[v].extend(data[v][have:m])
+                    have = m
+                    M._do_failed_use(gspec, times=list(ds['time']))
+                    got = [p_[1] for p_ in M.api('evaluate', gspec.evaluate, ds)]
+                    r.api_calls += 1
+                    if len(got) != m:
+                        r.violate('one-value-per-sample', spec=text, data=data, cut=m, got_prefix=len(got), got_extension=n, grown_in_place=True)
+                        return r
+                    for t in range(m):
+                        if t + h < m:
+                            r.evals += 1
+                            if not eqn(got[t], full[t]):
+                                r.violate('settled-value-stable', spec=text, data=data, cut=m, horizon=h, t=t, on_prefix=got[t],
+                                          on_extension=full[t], grown_in_place=True)
+                                return r
         else:
             sig = sc['signals']
             hh = h * common.DENSE_TICK
